@@ -39,7 +39,7 @@ META = dict(
                 "zeroes every group member for EVERY pair selection (full theorems).  The model is tied to mystic.math.measures/distance/tools.connected by "
                 "running both on generated inputs on every run."),
     level_note=("Trusted: Coq kernel+VM, harness printers/oracles; theorems over R (stdlib real axioms), executed over Q.  "
-                "Oracle-only (partial): general p-norms, minkowski, impose_moment, median/mad/trimmed variants."),
+                "Oracle-only (partial): general p-norms, minkowski, impose_moment, weighted median, mad and trimmed variants (the unweighted median and impose_median are modelled and proved)."),
     design_ref="5/C18")
 
 REL = F(1, 10**9)
@@ -235,6 +235,8 @@ def generate(rng, n, tier):
             w, _ = _weights(rng, k)
             which = rng.choice(["median", "mad", "impose_median", "impose_mad", "tmean", "tvariance", "tstd",
                                 "impose_tmean", "impose_tvariance", "impose_tstd"])
+            if which in ("median", "impose_median") and rng.random() < 0.4:
+                w = None                         # the unweighted forms are the modelled ones (Pure/Median.v)
             kk = rng.choice([0, 0, 10, 25, 12.5, 20, [10, 20], [0, 25], [25, 0], 40])
             yield dict(kind=kind, which=which, x=x, w=w, k=kk, clip=rng.random() < 0.3,
                        t=rng.choice([0.5, 1.0, 2.0, -1.5, 3.0, 0.25]))
@@ -810,7 +812,7 @@ def oracle(case, obs):
 def coq_preamble():
     return r"""
 From Coq Require Import Qabs.
-From MV Require Import Common.Num Pure.Measures.
+From MV Require Import Common.Num Pure.Measures Pure.Median.
 Open Scope Q_scope.
 Definition qclose (a b : Q) : bool := Qle_bool (Qabs (a - b)) ((1 # 1000000000) * (1 + Qabs b)).
 Definition qcmp (ex : bool) (a b : Q) : bool := if ex then Qeq_bool a b else qclose a b.
@@ -947,6 +949,13 @@ def coq_terms(case, obs):
                 T.append("oq true (Some (hamming_d NumQ %s)) %s" % (d, _oq(r)))
             elif m == "euclidean" and (case["a"] and case["b"]):
                 T.append("oq false (Some (euclidean_d NumQ SQ %s)) %s" % (d, _oq(r)))
+    elif k == "order" and case["w"] is None and case["which"] in ("median", "impose_median"):
+        # the unweighted order statistics are modelled (Pure/Median.v); the weighted ones stay oracle-only
+        x = _ql(case["x"])
+        if case["which"] == "median":
+            T.append("oq false (median_u NumQ %s) %s" % (x, _oq(obs["r"]["v"])))
+        else:
+            T.append("oql false (impose_median_u NumQ %s %s) %s" % (qlit(case["t"]), x, _oql(obs["r"]["v"])))
     return T
 
 
